@@ -101,9 +101,11 @@ func (m *parserModel) isUnknownAppend(in ssa.Instruction) (*ssa.Call, bool) {
 	return nil, false
 }
 
-// verifiedOnceFlags: bool phis that are true only after a verbatim ChildText append executed for the current token.
-func (m *parserModel) verifiedOnceFlags() map[*ssa.Phi]bool {
-	out := map[*ssa.Phi]bool{}
+// verifiedOnceFlags: variables (phis of constants: a bool, or an enumeration) that leave their initial value only
+// after a verbatim ChildText append executed for the current token. The map gives the initial value (false / the
+// constant the append is guarded by).
+func (m *parserModel) verifiedOnceFlags() map[*ssa.Phi]constant.Value {
+	out := map[*ssa.Phi]constant.Value{}
 	cache := map[*ssa.Function]*helperSum{}
 	eachInstr(m.fn, func(in ssa.Instruction) {
 		d, _ := m.basicDisposition(in, cache)
@@ -111,26 +113,39 @@ func (m *parserModel) verifiedOnceFlags() map[*ssa.Phi]bool {
 			return
 		}
 		for _, f := range factsAt(in.Block()) {
-			if f.Op != token.ILLEGAL || f.Truth {
-				continue
+			// the append is guarded by "flag still has its initial value": !flag, flag == init
+			var phi *ssa.Phi
+			var init constant.Value
+			switch {
+			case f.Op == token.ILLEGAL && !f.Truth:
+				phi, _ = f.X.(*ssa.Phi)
+				init = constant.MakeBool(false)
+			case f.Op == token.EQL && f.Y != nil:
+				x, y := f.X, f.Y
+				if _, isC := x.(*ssa.Const); isC {
+					x, y = y, x
+				}
+				if c, isC := y.(*ssa.Const); isC && c.Value != nil {
+					phi, _ = x.(*ssa.Phi)
+					init = c.Value
+				}
 			}
-			phi, ok := f.X.(*ssa.Phi)
-			if !ok {
+			if phi == nil || init == nil {
 				continue
 			}
 			good := true
-			sawTrue := false
+			sawOther := false
 			for i, e := range phi.Edges {
 				if e == ssa.Value(phi) {
 					continue
 				}
 				c, ok := e.(*ssa.Const)
-				if !ok || c.Value == nil {
+				if !ok || c.Value == nil || c.Value.Kind() != init.Kind() {
 					good = false
 					continue
 				}
-				if c.Value.String() == "true" {
-					sawTrue = true
+				if !constant.Compare(c.Value, token.EQL, init) {
+					sawOther = true
 					// the edge must come from a block dominated by the append's block, after the append
 					pred := phi.Block().Preds[i]
 					if !in.Block().Dominates(pred) {
@@ -138,12 +153,41 @@ func (m *parserModel) verifiedOnceFlags() map[*ssa.Phi]bool {
 					}
 				}
 			}
-			if good && sawTrue {
-				out[phi] = true
+			if good && sawOther {
+				out[phi] = init
 			}
 		}
 	})
 	return out
+}
+
+// onceFlagSet: the fact says that a verified once-flag has left its initial value.
+func onceFlagSet(f Fact, flags map[*ssa.Phi]constant.Value) bool {
+	switch {
+	case f.Op == token.ILLEGAL && f.Truth:
+		if phi, ok := f.X.(*ssa.Phi); ok {
+			if init, ok := flags[phi]; ok && init.Kind() == constant.Bool {
+				return true
+			}
+		}
+	case (f.Op == token.EQL || f.Op == token.NEQ) && f.Y != nil:
+		x, y := f.X, f.Y
+		if _, isC := x.(*ssa.Const); isC {
+			x, y = y, x
+		}
+		phi, ok1 := x.(*ssa.Phi)
+		c, ok2 := y.(*ssa.Const)
+		if !ok1 || !ok2 || c.Value == nil {
+			return false
+		}
+		init, ok := flags[phi]
+		if !ok || init.Kind() != c.Value.Kind() {
+			return false
+		}
+		same := constant.Compare(c.Value, token.EQL, init)
+		return (f.Op == token.NEQ && same) || (f.Op == token.EQL && !same)
+	}
+	return false
 }
 
 // R08.1
@@ -277,10 +321,8 @@ func passThroughRule(id string) func(w *World, r *Report) {
 						}
 					}
 					// once-flag already set: the token was appended earlier for this token
-					if f.Op == token.ILLEGAL && f.Truth {
-						if phi, ok := f.X.(*ssa.Phi); ok && flags[phi] {
-							return false
-						}
+					if onceFlagSet(f, flags) {
+						return false
 					}
 					// require-order stop handled by (a)
 					if f.Op == token.ILLEGAL && f.Truth {
